@@ -271,6 +271,40 @@ def h_case_insensitive(eng, names):
                 eng.prove(okq is None or okq == (before is not None), f"quantity-after-case-insensitive-lookup:{text}")
 
 
+def h_delta_reading(eng):
+    """in compound unit expressions offset units are read as their delta counterparts -- unless
+    that is disabled, per call or per registry; single offset units are never rewritten; the
+    answer for one setting does not depend on what was asked under the other before"""
+    import pint
+
+    texts = {
+        "degC/meter": ({"delta_degree_Celsius": 1, "meter": -1}, {"degree_Celsius": 1, "meter": -1}),
+        "degF**2": ({"delta_degree_Fahrenheit": 2}, {"degree_Fahrenheit": 2}),
+        "1/degree_Reaumur": ({"delta_degree_Reaumur": -1}, {"degree_Reaumur": -1}),
+        "joule/(kilogram*degC)": ({"joule": 1, "kilogram": -1, "delta_degree_Celsius": -1}, {"joule": 1, "kilogram": -1, "degree_Celsius": -1}),
+        "degC": ({"degree_Celsius": 1}, {"degree_Celsius": 1}),
+        "kelvin/meter": ({"kelvin": 1, "meter": -1}, {"kelvin": 1, "meter": -1}),
+    }
+
+    def got(reg, text, **kw):
+        return {k: int(v) for k, v in reg.parse_units(text, **kw)._units.items()}
+
+    for default in (True, False):
+        for order in ("delta-first", "plain-first"):
+            reg = pint.UnitRegistry(non_int_type=eng.ntype, default_as_delta=default)
+            for text, (with_delta, plain) in texts.items():
+                steps = [("as_delta=True", {"as_delta": True}, with_delta), ("as_delta=False", {"as_delta": False}, plain)]
+                if order == "plain-first":
+                    steps.reverse()
+                steps.append(("default", {}, with_delta if default else plain))
+                steps.append(("as_delta=None", {"as_delta": None}, with_delta if default else plain))
+                steps += steps[:2]  # and once more after the others
+                for i, (label, kw, want) in enumerate(steps):
+                    eng.prove(got(reg, text, **kw) == want, f"delta-reading:default={default}:{order}:{text}:{label}:{i}")
+                q = reg.Quantity(eng.num(3), text)
+                eng.prove({k: int(v) for k, v in q._units.items()} == (with_delta if default else plain), f"delta-reading:Quantity:default={default}:{order}:{text}")
+
+
 MIN_DISCHARGED = {"H08.a": 5000, "H08.b": 300, "H08.d": 3000}
 
 
@@ -338,4 +372,5 @@ def cases(tier, seed):
     out.append(Case("H08.ch", "reachability_twin", CH, "-", {"func": "reachability_twin", "timeout": 60, "expect": "refuted"}, kind="ch", weight=100.0))
     names = rnd.sample([s for s in spell if s.isascii() and s.isalpha() and len(s) > 2], 150 if big else 40)
     out.append(Case("H08.e", "case-insensitive", M, "h_case_insensitive", {"names": names}, kind="conc"))
+    out.append(Case("H08.f", "delta-reading", M, "h_delta_reading", {}, kind="conc"))
     return out
